@@ -509,6 +509,7 @@ func (s *Server) handleNewConnection(ctx context.Context, rwc io.ReadWriteCloser
 
 	// Register the connection only now that it is authenticated: a peer that fails to log in must never appear in
 	// the user list, receive broadcasts, or cause a "user left" notification when it goes away.
+	verifhook.Event("conn.registering", s, c.ID, 0)
 	s.ClientMgr.Add(c)
 	verifhook.Event("conn.registered", s, c.ID, 0)
 	defer c.Disconnect()
